@@ -814,45 +814,46 @@ class GraphBuilder(BuilderBase):
 
         if _prefix:
             self.push_module(_prefix)
+        try:
+            count = self._node_count()
+            node_name_prefix = self._qualify_node_name(f"{function.name}_node_{count}/")
+            # Adapt inputs like ``call`` does: promote Python constants/tensors to ir.Value.
+            adapted_args = [self._input_to_ir_value(arg) for arg in args]
+            nodes, outputs = _inliner.instantiate(
+                graph, adapted_args, attr_map, prefix=node_name_prefix
+            )
 
-        count = self._node_count()
-        node_name_prefix = self._qualify_node_name(f"{function.name}_node_{count}/")
-        # Adapt inputs like ``call`` does: promote Python constants/tensors to ir.Value.
-        adapted_args = [self._input_to_ir_value(arg) for arg in args]
-        nodes, outputs = _inliner.instantiate(
-            graph, adapted_args, attr_map, prefix=node_name_prefix
-        )
+            # Track final output values so we can rename them separately.
+            # The inliner prefixes all names, which would prevent name-based lookup
+            # from matching the original graph output names.
+            output_value_ids = {id(v) for v in outputs if v is not None}
 
-        # Track final output values so we can rename them separately.
-        # The inliner prefixes all names, which would prevent name-based lookup
-        # from matching the original graph output names.
-        output_value_ids = {id(v) for v in outputs if v is not None}
+            for node in nodes:
+                for output in node.outputs:
+                    if output.name and id(output) not in output_value_ids:
+                        output.name = self._qualify_value_name(output.name)
+                self.add_node(node)
 
-        for node in nodes:
-            for output in node.outputs:
-                if output.name and id(output) not in output_value_ids:
-                    output.name = self._qualify_value_name(output.name)
-            self.add_node(node)
-
-        # Apply names to final output values. Only values produced by the inlined
-        # nodes are renamed: an output that is one of the caller's own values (a
-        # function returning one of its inputs) keeps its name.
-        produced_ids = {id(o) for node in nodes for o in node.outputs}
-        if desired_output_names:
-            for output_val, name in zip(outputs, desired_output_names):
-                if output_val is not None and id(output_val) in produced_ids:
-                    output_val.name = name
-        else:
-            for output_val in outputs:
-                if (
-                    output_val is not None
-                    and output_val.name
-                    and id(output_val) in produced_ids
-                ):
-                    output_val.name = self._qualify_value_name(output_val.name)
-
-        if _prefix:
-            self.pop_module()
+            # Apply names to final output values. Only values produced by the inlined
+            # nodes are renamed: an output that is one of the caller's own values (a
+            # function returning one of its inputs) keeps its name.
+            produced_ids = {id(o) for node in nodes for o in node.outputs}
+            if desired_output_names:
+                for output_val, name in zip(outputs, desired_output_names):
+                    if output_val is not None and id(output_val) in produced_ids:
+                        output_val.name = name
+            else:
+                for output_val in outputs:
+                    if (
+                        output_val is not None
+                        and output_val.name
+                        and id(output_val) in produced_ids
+                    ):
+                        output_val.name = self._qualify_value_name(output_val.name)
+        finally:
+            # Also on an exception (e.g. too many inputs): the prefix scope must not leak.
+            if _prefix:
+                self.pop_module()
         if len(outputs) == 0:
             return ()
         return outputs if len(outputs) > 1 else outputs[0]
